@@ -414,6 +414,82 @@ pub fn run(ctx: &Ctx) -> i32 {
                 .extra("deviation_bound_completed", json!(fbound)),
         );
     }
+    // ---- sinks behind adapters: what has reached the destination after write() and flush() both returned Ok
+    {
+        use std::cell::RefCell;
+        use std::rc::Rc;
+        /// holds everything back until flush(), like a BufWriter with a large buffer
+        struct Holding {
+            pending: Vec<u8>,
+            dest: Rc<RefCell<Vec<u8>>>,
+        }
+        impl Write for Holding {
+            fn write(&mut self, b: &[u8]) -> std::io::Result<usize> {
+                self.pending.extend_from_slice(b);
+                Ok(b.len())
+            }
+            fn flush(&mut self) -> std::io::Result<()> {
+                self.dest.borrow_mut().append(&mut self.pending);
+                Ok(())
+            }
+        }
+        let mut acc = Acc::new();
+        for (i, s) in subs_.iter().enumerate() {
+            for meta_only in [false, true] {
+                let canon: &[u8] = if meta_only { &s.canon[..s.payload_off] } else { &s.canon };
+                let wr = |w: &mut dyn Write| -> Result<(), String> {
+                    if meta_only { s.pkg.metadata.write(&mut &mut *w) } else { s.pkg.write(&mut &mut *w) }.map_err(|e| e.to_string())?;
+                    w.flush().map_err(|e| e.to_string())
+                };
+                let mut adapters: Vec<(String, Box<dyn Fn() -> Result<Vec<u8>, String> + '_>)> = vec![];
+                adapters.push(("a sink that holds everything until flush()".into(), Box::new(|| {
+                    let dest = Rc::new(RefCell::new(vec![]));
+                    let mut w = Holding { pending: vec![], dest: dest.clone() };
+                    wr(&mut w)?;
+                    let d = dest.borrow().clone();
+                    Ok(d)
+                })));
+                adapters.push(("rpm::Sha256Writer around such a sink".into(), Box::new(|| {
+                    let dest = Rc::new(RefCell::new(vec![]));
+                    let mut w = rpm::Sha256Writer::new(Holding { pending: vec![], dest: dest.clone() });
+                    wr(&mut w)?;
+                    let d = dest.borrow().clone();
+                    Ok(d)
+                })));
+                for cap in [1usize, 7, 64, 8192, 1 << 20] {
+                    adapters.push((format!("BufWriter with a {}-byte buffer around such a sink", cap), Box::new(move || {
+                        let dest = Rc::new(RefCell::new(vec![]));
+                        let mut w = std::io::BufWriter::with_capacity(cap, Holding { pending: vec![], dest: dest.clone() });
+                        wr(&mut w)?;
+                        let d = dest.borrow().clone();
+                        Ok(d)
+                    })));
+                    adapters.push((format!("rpm::Sha256Writer around a BufWriter with a {}-byte buffer", cap), Box::new(move || {
+                        let dest = Rc::new(RefCell::new(vec![]));
+                        let mut w = rpm::Sha256Writer::new(std::io::BufWriter::with_capacity(cap, Holding { pending: vec![], dest: dest.clone() }));
+                        wr(&mut w)?;
+                        let d = dest.borrow().clone();
+                        Ok(d)
+                    })));
+                }
+                for (what, run) in adapters {
+                    acc.evals += 1;
+                    let case = || json!({"subject": s.name, "metadata_only": meta_only, "sink": what});
+                    match catch(|| run()) {
+                        Err(p) => acc.viol(panic_violation("adapters", &p, case()).rank(i as u64)),
+                        Ok(Err(e)) => acc.viol(Violation::new("adapters", format!("writing to a sink that never fails returned an error: {}", e), case()).sig("clause", "spurious-error").rank(i as u64)),
+                        Ok(Ok(d)) => {
+                            acc.nontrivial += 1;
+                            if d != canon {
+                                acc.viol(Violation::new("adapters", format!("write() and flush() returned Ok, the destination holds {} of {} canonical bytes", d.len(), canon.len()), case()).sig("clause", "ok-but-not-canonical").rank(i as u64));
+                            }
+                        }
+                    }
+                }
+            }
+        }
+        reports.push(SubReport::new("adapters", "A", "every subject (whole and metadata only) written through sinks that hold data until flush(): such a sink alone, behind BufWriters of 1 … 2^20 bytes, and each of them behind the library's public Sha256Writer; after write() and flush() returned Ok the destination must hold exactly the canonical bytes", acc));
+    }
     // the operating system as source and sink: regular files, named pipes (no usable stat size), existing longer destinations
     {
         let mut acc = Acc::new();
